@@ -1348,6 +1348,93 @@ func ruleScoKeys(c *Ctx, r *R) {
 		return
 	}
 	r.ok("globals keys", fmt.Sprintf("%d lookups in c.Globals, none keyed by pkgPrefix", n))
+	// the scope string function-local types are keyed by (the string field of the compiler that
+	// is not FuncName and is saved/restored around function literals) is built from expPrefix —
+	// the import path — never from pkgPrefix or from FuncName, and for a function literal from
+	// the literal's full position (file included): two literals at the same line:column of two
+	// files are two scopes
+	if cs, err := c.compileSwitch(); err == nil {
+		var scopeAssigns int
+		expandRHS := func(e ast.Expr, fd *ast.FuncDecl) string {
+			out := nosp(c.FullSrc(e))
+			seen := map[types.Object]bool{}
+			var grow func(e ast.Expr, depth int)
+			grow = func(e ast.Expr, depth int) {
+				if depth > 3 {
+					return
+				}
+				ast.Inspect(e, func(k ast.Node) bool {
+					id, ok := k.(*ast.Ident)
+					if !ok {
+						return true
+					}
+					v, ok := c.Obj(id).(*types.Var)
+					if !ok || v.IsField() || seen[v] {
+						return true
+					}
+					seen[v] = true
+					ast.Inspect(fd.Body, func(m ast.Node) bool {
+						as, ok := m.(*ast.AssignStmt)
+						if !ok || len(as.Lhs) != len(as.Rhs) {
+							return true
+						}
+						for i, l := range as.Lhs {
+							if lid, ok := unparen(l).(*ast.Ident); ok && c.Obj(lid) == types.Object(v) && as.Pos() < e.Pos() {
+								out += " " + nosp(c.FullSrc(as.Rhs[i]))
+								grow(as.Rhs[i], depth+1)
+							}
+						}
+						return true
+					})
+					return true
+				})
+			}
+			grow(e, 0)
+			return out
+		}
+		for _, lab := range []string{"function", "method", "lambda", "init"} {
+			sc := cs.ByLabel[lab]
+			if sc == nil {
+				continue
+			}
+			ast.Inspect(sc.Clause, func(q ast.Node) bool {
+				as, ok := q.(*ast.AssignStmt)
+				if !ok || len(as.Lhs) != len(as.Rhs) || (as.Tok != token.ASSIGN && as.Tok != token.DEFINE) {
+					return true // (scope += suffix only extends a scope that was judged where it was set)
+				}
+				for i, l := range as.Lhs {
+					sel, ok := unparen(l).(*ast.SelectorExpr)
+					if !ok || sel.Sel.Name != "typeScope" {
+						continue
+					}
+					rhs := as.Rhs[i]
+					if v, isConst := c.ConstString(rhs); isConst && v == "" {
+						continue // cleared after the declaration
+					}
+					if id, ok := unparen(rhs).(*ast.Ident); ok {
+						// restoring a saved scope: tmp := c.typeScope ... c.typeScope = tmp
+						if def := c.singleDef(id); def != nil && strings.HasSuffix(nosp(c.Src(def)), ".typeScope") {
+							continue
+						}
+					}
+					scopeAssigns++
+					src := expandRHS(rhs, cs.Fn)
+					fromPath := strings.Contains(src, "expPrefix(") && !strings.Contains(src, "pkgPrefix(") && !strings.Contains(src, ".FuncName")
+					r.check(fromPath, "type scope from the import path ("+lab+")", c.Pos(as), "the scope of function-local types is built with expPrefix",
+						"compile(\""+lab+"\") builds the scope that keys function-local types from the package *name* (pkgPrefix / FuncName): local types of net/codec.New and disk/codec.New (both `package codec`) share one global — their fields are merged (a struct declared {path; id} prints &{id:1 host: ready:false path:/tmp/x})")
+					if lab == "lambda" {
+						full := strings.Contains(src, ".Pos.String()") || strings.Contains(src, ".Filename")
+						r.check(full, "literal scope from the full position", c.Pos(as), "a function literal's scope includes the file it is written in",
+							"compile(\"lambda\") names a function literal's type scope by line and column only: two literals that start at the same line:column in two files of a package share their local types — same-named local structs are merged, so moving a literal to another file changes what the program prints")
+					}
+				}
+				return true
+			})
+		}
+		if scopeAssigns == 0 {
+			r.undecided("type scope", "-", "no assignment to the compiler's type scope found in the function / method / lambda / init cases")
+		}
+	}
 	// a package may have several init functions: the scope their local types are keyed by
 	// differs from one init to the next (it involves a counter), it is not the constant <pkg>.init
 	if cs, err := c.compileSwitch(); err == nil {
